@@ -15,6 +15,8 @@ CONSTANTS DeclIds,      \* which catalogue declarations
           POptSets,     \* set of parser-option sequences
           Handlers,     \* subset of {"none","identity","dropnext","inject","error"}
           Policy,       \* token classes of the alphabet
+          PreMode,      \* "none": fresh parsers only; "cmds": the judged parse is also run as the SECOND ParseArgs of a parser whose
+                        \*         first one selected some command path (every path of the declaration)
           Emit          \* TRUE: print one SCN line per initial state
 
 VARIABLE st
@@ -72,10 +74,19 @@ Vectors(d) == UNION {[1..n -> Alphabet(d)] : n \in 0..MaxLen}
 Scenario(di, po, h, argv) ==
   [decl |-> di, popts |-> po, handler |-> h, cmdHandler |-> TRUE, execErr |-> FALSE, env |-> <<>>, argv |-> argv, completion |-> E, hasPrelude |-> FALSE, prelude |-> <<>>]
 
+\* the words that select command c (one filler word per positional of the commands on the way), followed by the options
+\* its own required options need - a first parse that succeeds as far as the chain is concerned
+PreFill(cd) == IF \E i \in 1..Len(cd.args) : cd.args[i].slice THEN <<>> ELSE [i \in 1..Len(cd.args) |-> <<49>>]
+RECURSIVE PrePath(_, _)
+PrePath(d, c) == IF c = 1 THEN <<>> ELSE PrePath(d, d.cmds[c].parent) \o PreFill(d.cmds[d.cmds[c].parent]) \o <<d.cmds[c].name>>
+Preludes(d) == {[has |-> FALSE, v |-> <<>>]} \cup (IF PreMode = "cmds" THEN {[has |-> TRUE, v |-> PrePath(d, c)] : c \in 2..Len(d.cmds)} ELSE {})
+
 ---------------------------------------------------------------------------
 Init == \E di \in DeclIds, po \in POptSets, h \in Handlers :
-          \E argv \in Vectors(Decls[di]) :
-             st = S0(Decls[di], Scenario(di, po, h, argv), FTab)
+          \E pre \in Preludes(Decls[di]) : \E argv \in Vectors(Decls[di]) :
+             st = IF pre.has
+                  THEN ReuseState(Run(S0(Decls[di], [Scenario(di, po, h, pre.v) EXCEPT !.hasPrelude = TRUE, !.prelude = pre.v], FTab)), argv)
+                  ELSE S0(Decls[di], Scenario(di, po, h, argv), FTab)
 
 Act(a) == EnabledA(a, st) /\ st' = [ApplyA(a, st) EXCEPT !.steps = @ + 1]
 
@@ -154,6 +165,9 @@ Conservation ==
 ChainFromWords ==
   LET words == RoleTokens("command") IN
   ~st.hmod => st.chain = FoldLeft(LAMBDA ch, w : Append(ch, Resolve(st.d, ch[Len(ch)], w)), <<1>>, words)
+\* ... also on a parser that lived through an earlier parse: no Active pointer of that parse survives (C08; the pinned code
+\* kept them, switch StaleActive)
+ActiveIsChain == (Done /\ ~st.hmod) => ActiveChain(st, 1) = st.chain
 \* scoping, declaratively: a name denotes the option declared in the innermost command of the chain that declares it
 DeclLookupLong(name) ==
   LET cands == {o \in 1..Len(st.opts) : st.opts[o].long # E /\ st.nsLong[o] = name /\ InSeq(st.chain, st.opts[o].cmd)}
@@ -189,7 +203,9 @@ Supplied(o) == \/ \E k \in 1..Len(st.occ) : st.occ[k].o = o
                \/ st.opts[o].defaults # <<>>
                \/ (EnvKey(st.d, st.opts[o]) # E /\ EnvLookup(st, EnvKey(st.d, st.opts[o])).set)
 MissingDecl == {o \in 1..Len(st.opts) : st.opts[o].required /\ InSeq(st.chain, st.opts[o].cmd) /\ ~Supplied(o)}
+\* (on a fresh parser; the isSet marks of an earlier parse stay, see ReuseState)
 RequiredEnforced ==
+  st.sc.hasPrelude \/
   /\ (Done /\ Ok) => MissingDecl = {}
   /\ (Done /\ st.err.t = "ErrRequired" /\ MissingDecl # {}) =>
         SeqToSet(st.err.names) = {OptString(st.d, st.opts[o]) : o \in MissingDecl} /\ Execs(st.events) = <<>>
@@ -218,7 +234,7 @@ DenoteOK(o) ==
             [] OTHER -> TRUE
 ValuesDenote == (Done /\ Ok /\ ~st.grey) => \A o \in 1..Len(st.d.opts) : DenoteOK(o)
 UntouchedWithoutOccurrence ==
-  (Done /\ Ok) => \A o \in 1..Len(st.d.opts) :
+  (Done /\ Ok /\ ~st.sc.hasPrelude) => \A o \in 1..Len(st.d.opts) :
       (OccOf(o) = <<>> /\ st.opts[o].defaults = <<>> /\ st.opts[o].env = E) => st.val[o] = st.opts[o].init
 
 \* scenario emission (spec -> code): one line per initial state
